@@ -1,4 +1,5 @@
 import MorfuseModel.Emit.Fuse
+import MorfuseModel.Emit.TopNL
 /-!
 # Simulation between the two passes: the emitter, for the class `Node.plain`
 -/
@@ -18,8 +19,9 @@ def Node.isLit : Node → Bool
   | _ => false
 
 mutual
-/-- the trees the simulation is proved for: a unary minus only directly on an integer or float literal (its constant
-folding reads code bytes back; the literal just emitted is read back correctly by either manager); listener bytes of fields as the parser produces them (`≤ 6`) -/
+/-- the trees the simulation is proved for: a unary minus only on an integer or float literal (its constant folding
+reads code bytes back; the literal just emitted is read back correctly by either manager) or on an operand whose
+emission ends with an opcode that is no operand-literal (`Node.endsNL`: nothing is read back); listener bytes of fields as the parser produces them (`≤ 6`) -/
 def Node.plain : Node → Bool
   | .next n => n.plain
   | .list xs => xs.plain
@@ -33,7 +35,7 @@ def Node.plain : Node → Bool
   | .cmd _ _ ps | .cmdx _ _ ps => ps.plain
   | .field _ _ _ _ l => l.plain && (match l with | .listener b => decide (b ≤ 6) | _ => true)
   | .vec a b c => a.plain && b.plain && c.plain
-  | .f1 op x => (decide (op ≠ OP_UN_MINUS) || x.isLit) && x.plain
+  | .f1 op x => (decide (op ≠ OP_UN_MINUS) || x.isLit || x.endsNL) && x.plain
   | .f2 _ a b => a.plain && b.plain
   | .not_ x => x.plain
   | .idx a i => a.plain && i.plain
